@@ -129,6 +129,21 @@ CHECKS["C17"] = {
     "note": "Trusted: shape contracts in sa/engine/mrspec.py (docstrings); Numba code generation; callers not analysed pass arrays that satisfy the contracts.",
 }
 
+CHECKS["C05"] = {
+    "engine": "sa",
+    "technique": "interprocedural typestate over all paths of the Arm class (derived-state coherence), ownership/order rules, call-shape and clamp-dominance rules",
+    "design_ref": "DESIGN.md section 4 C05",
+    "text": ("Decides for every history over the public Arm methods the structural invariant behind 'reported tool pose = FK of "
+             "the stored joints': each write of joint vector / home pose / space screws / tool pose is followed on every path to "
+             "a normal exit by the FK re-derivation (self-calls analysed inline with constant propagation); the constructor "
+             "neither writes through the caller's screw array nor backs it up after transformation; FK itself is "
+             "FKinSpace(home, space screws, clamped theta) storing joints and pose from one vector; None-defaulted joint "
+             "arguments are resolved before use; move() re-initialises from the stored original screws and local home; no state "
+             "pose object is mutated through an alias; NumPy attributes used exist (an Arm can be built). Equality with the "
+             "product of exponentials to 1e-7 is not decided here (kernel: C02)."),
+    "note": "Trusted: FKinSpace (C02); parameters documented as transforms are transforms; num_dof >= 1.",
+}
+
 _PENDING = "rule module not yet built in this round (see DESIGN.md section 4 for the planned static rules)"
 for _i in range(1, 21):
     _p = "C%02d" % _i
